@@ -60,7 +60,10 @@ def objPairs (j : Json) : List (String × Json) :=
 def parseInst (j : Json) : Except String InstDef := do
   let pre ← ((jArrField? j "pre").getD []).mapM parsePre
   let sui ← ((jArrField? j "sui").getD []).mapM parsePre
-  let chJ := (jField? j "children").getD Json.null
+  -- (the children in the order `spawn_on_output` walks them, when the harness gives it; else the sorted lists)
+  let chJ := match jField? j "children_seq" with
+    | some v => v
+    | none => (jField? j "children").getD Json.null
   let children ← (objPairs chJ).mapM fun (k, v) => do
     let cs ← ((jArr? v).getD []).mapM fun c => do
       match jArr? c with
